@@ -605,6 +605,15 @@ def classify_session_reject(pid: str, clause: str, s: dict, l: int) -> str:
     extra = ""
     if ev["exc"]:
         extra = ":" + ev["exc"]
+    if pid == "C04" and clause in ("in_table", "contains_table") and not ev["exc"]:
+        # contains()/`in` go through str(): a member range [X.Y, (X+1).0.postN) is rendered `~=X.Y` (the recorded
+        # C06 finding) and then answers for `<(X+1).0`
+        from packaging.version import Version
+        for r in ev["shape"]["rs"]:
+            if r["lo"] and r["hi"] and r["li"] and not r["ui"]:
+                hi = Version(s["points"][r["hi"] - 1])
+                if hi.is_postrelease and not hi.is_prerelease:
+                    return "C04:contains-via-str:~=:upper-bound-post-release"
     if pid == "C06" and ev["op"] == "reparse" and ev["text"].startswith("~=") and not ev["exc"]:
         # which bound shape makes the ~= rendering lossy?
         from packaging.version import Version
